@@ -5,7 +5,7 @@ import traceback
 from lib.coqterm import cbool, cbytes, clist, copt, cN, hx, unhx
 
 ID = "C30"
-QUICK_N = 3000
+QUICK_N = 2000
 THOROUGH_N = 60000
 SHARD = 300
 RULE = ("schedules of <= 14 QUIC stream events (data with/without FIN, empty FIN, reset, stop-sending, connection close) "
